@@ -117,7 +117,8 @@ std::vector<size_t> all_residues() {
   for (size_t i = 0; i < 64; i++) v.push_back(i);
   return v;
 }
-const std::vector<size_t> kResidues = {0, 1, 7, 54, 55, 56, 57, 62, 63};
+const std::vector<size_t> kResidues = {0, 1, 2, 7, 8, 31, 32, 53, 54, 55, 56, 57, 58, 61, 62, 63};
+const char* const kResiduesText = "{0,1,2,7,8,31,32,53..58,61,62,63}";
 
 }  // namespace
 
@@ -137,13 +138,13 @@ VF_SECTION(pairs, 16, 16, 300) {
           }
   r.bound = vf::fmt("every ordered pair (A, B) of %zu shapes = lengths 64*{0,1,2} + residues %s x fills {00, FF, ASCII, LCG}; history f(A), f(B), f(A) for each of the 6 functions and every "
                     "(overload of A, overload of B) combination; digest objects re-rendered after the history",
-      sh.size(), r.thorough() ? "0..63" : "{0,1,7,54,55,56,57,62,63}");
+      sh.size(), r.thorough() ? "0..63" : kResiduesText);
 }
 
 // ---- (1) ordered pairs of calls of two different functions -------------------------------------------------------
 VF_SECTION(cross, 16, 16, 300) {
   Cache c;
-  std::vector<Shape> sh = r.thorough() ? shapes_of(lens_of(all_residues(), {0, 1}), {P_FF, P_LCG}) : shapes_of(lens_of(kResidues, {0, 1, 2}), {P_FF, P_LCG});
+  std::vector<Shape> sh = shapes_of(lens_of(r.thorough() ? all_residues() : kResidues, {0, 1, 2}), {P_FF, P_LCG});
   for (int f1 = 0; f1 < NFN; f1++)
     for (int f2 = 0; f2 < NFN; f2++) {
       if (f1 == f2) continue;
@@ -156,7 +157,7 @@ VF_SECTION(cross, 16, 16, 300) {
         }
     }
   r.bound = vf::fmt("every ordered pair of different functions (30) x every ordered pair of %zu shapes (%s x fills {FF, LCG}); history f(A), g(B), f(A)", sh.size(),
-      r.thorough() ? "lengths 64*{0,1} + residues 0..63" : "lengths 64*{0,1,2} + residues {0,1,7,54,55,56,57,62,63}");
+      (std::string("lengths 64*{0,1,2} + residues ") + (r.thorough() ? "0..63" : kResiduesText)).c_str());
 }
 
 // ---- (1) ordered triples ---------------------------------------------------------------------------------------
@@ -539,6 +540,10 @@ VF_SECTION(chain3, 16, 16, 300) {
           auto fold = [&](const uint8_t* p, size_t n, int ov) {
             h = call_u_seeded(fn, n_ov(fn) > 1 ? ov : OV_PTR, p, n, h);
             calls++;
+            // an unrelated call between two reads (another function, rotating, on the same piece): must not disturb the fold
+            int other = static_cast<int>((fn + 1 + calls) % NFN);
+            if (other == fn) other = (other + 1) % NFN;
+            (void)call_any(other, OV_PTR, p, n);
           };
           fold(whole.p, 0, OV_PTR);  // empty first read
           for (size_t off = 0; off < len; off += chunk) {
@@ -553,7 +558,7 @@ VF_SECTION(chain3, 16, 16, 300) {
           else r.ok(std::string(fn_name[fn]) + ":read loop equals whole");
         }
   r.bound = vf::fmt("crc32/fnv1a32/fnv1a64: every pair of split points i <= j of every input of length 0..%zu x fills {FF, LCG, ASCII} x every overload combination of the three calls; read loops over every "
-                    "length 0..%zu x fills {LCG, high} x chunk sizes {1,2,3,5,7,8,16,63,64,65} with empty reads at the start, middle and end (valid pointer, one-past-end, nullptr)",
+                    "length 0..%zu x fills {LCG, high} x chunk sizes {1,2,3,5,7,8,16,63,64,65} with empty reads at the start, middle and end (valid pointer, one-past-end, nullptr) and a call of another function after every read",
       top, rtop);
 }
 
